@@ -331,4 +331,32 @@ def constructor_defaults(ix: Index, cls: ClassInfo, param: str) -> dict:
                                     for end, x in enumerate(el.elts):
                                         if isinstance(x, ast.Name) and x.id in consts:
                                             out[Leaf("bounds", k, end)] = consts[x.id]
+    if out:
+        return out
+    # second idiom: `if isinstance(<param>, T): a, b = <param>  else: a, b = (<const>, f(<param>))`
+    for node in ast.walk(init.node):
+        if not (isinstance(node, ast.If) and isinstance(node.test, ast.Call) and dotted(node.test.func) == "isinstance" and len(node.test.args) == 2 and isinstance(node.test.args[0], ast.Name) and node.test.args[0].id == param):
+            continue
+        full = [s_ for s_ in node.body if isinstance(s_, ast.Assign) and isinstance(s_.targets[0], ast.Tuple) and isinstance(s_.value, ast.Name) and s_.value.id == param]
+        dflt = [s_ for s_ in node.orelse if isinstance(s_, ast.Assign) and isinstance(s_.targets[0], ast.Tuple) and isinstance(s_.value, ast.Tuple)]
+        if len(full) != 1 or len(dflt) != 1:
+            continue
+        types = {dotted(x).split(".")[-1] for x in (node.test.args[1].elts if isinstance(node.test.args[1], ast.Tuple) else [node.test.args[1]])}
+        if not (types & {"Sequence", "Iterable", "Collection"} or {"tuple", "list"} <= types):
+            out["__narrow__"] = f"the full form of `{param}` is recognised by `isinstance({param}, {ast.unparse(node.test.args[1])})` only: the JSON form of the state hands a list, which is taken for the collapsed (scalar) form"
+        names = [t.id for t in full[0].targets[0].elts if isinstance(t, ast.Name)]
+        tn = [t.id for t in dflt[0].targets[0].elts if isinstance(t, ast.Name)]
+        if tn != names or len(dflt[0].value.elts) != len(names):
+            continue
+        consts = {}
+        for nm, v in zip(tn, dflt[0].value.elts):
+            if isinstance(v, ast.Constant):
+                consts[nm] = v.value
+        for a in ast.walk(init.node):
+            if isinstance(a, ast.Assign) and any(isinstance(t, ast.Attribute) and t.attr == "_axes_bounds" for t in a.targets) and isinstance(a.value, ast.Tuple):
+                for k, el in enumerate(a.value.elts):
+                    if isinstance(el, ast.Tuple):
+                        for end, x in enumerate(el.elts):
+                            if isinstance(x, ast.Name) and x.id in consts:
+                                out[Leaf("bounds", k, end)] = consts[x.id]
     return out
